@@ -39,7 +39,7 @@ def genumEntries : List Entry := [
   ⟨.imp, false, "genum", "github.com/drshriveer/gtools/genum", []⟩
 ]
 def genumUses : List Use := [
-  ⟨"slices", [.range ".Types", .data "gt (len $values) 15"]⟩,
+  ⟨"slices", [.range ".Types", .data "gt (len (index $.Values $i)) 15"]⟩,
   ⟨"slices", [.range ".Types"]⟩,
   ⟨"fmt", [.range ".Types"]⟩,
   ⟨"strings", [.range ".Types", .opt "CaseInsensitive" true]⟩,
